@@ -525,7 +525,15 @@ impl Simulation {
                     #[cfg(feature = "verif-hooks")]
                     crate::verif_hooks::probe(crate::verif_hooks::site::STEP_UNTIL_BEFORE_FINAL_WRITE, 0);
                     self.time.write(target_time);
-                    self.clock.synchronize(target_time);
+                    if let SyncStatus::OutOfSync(lag) = self.clock.synchronize(target_time) {
+                        if let Some(tolerance) = &self.clock_tolerance {
+                            if &lag > tolerance {
+                                self.is_terminated = true;
+
+                                return Err(ExecutionError::OutOfSync(lag));
+                            }
+                        }
+                    }
                     return Ok(());
                 }
                 Err(e) => return Err(e),
